@@ -2,6 +2,9 @@ import Resynth.Model.Cli
 import Resynth.Gen.Stdlib
 import Resynth.Spec.Pcap
 import Resynth.Spec.TcpDecode
+import Resynth.Spec.Rfc791
+import Resynth.Spec.Tunnel
+import Resynth.Spec.Net
 /-!
 # Line-protocol driver over the model: one request per line, one response per line.
 Mirrors /verif/harness (which runs the real Rust code) request for request.
@@ -297,6 +300,40 @@ def cmdOracle (args : List String) : String :=
           s!"ok {rs.length} {",".intercalate (rs.map fun r => s!"{r.time}:{r.len}")}"
         else "bad fields"
   | "tcp" :: rest => oracleTcp rest
+  | ["decap", kind, h] =>
+    match ofHex h with
+    | none => "bad-request"
+    | some b =>
+      match kind with
+      | "vxlan" => match Spec.decapVxlan b with
+        | some v => s!"ok sport={v.srcPort} dport={v.dstPort} vni={v.vni} inner={hexOrDash v.inner}"
+        | none => "bad"
+      | "gre" => match Spec.decapGre b with
+        | some g => s!"ok flags={g.flags} proto={g.proto} seq={match g.seq with | some n => toString n | none => "-"} inner={hexOrDash g.inner}"
+        | none => "bad"
+      | "erspan1" => match Spec.decapErspan1 b with
+        | some i => s!"ok inner={hexOrDash i}"
+        | none => "bad"
+      | "erspan2" => match Spec.decapErspan2 b with
+        | some e => s!"ok seq={e.seq} ver={e.ver} vlan={e.vlan} cos={e.cos} en={e.en} t={e.t} session={e.sessionId} index={e.portIndex} inner={hexOrDash e.inner}"
+        | none => "bad"
+      | _ => "bad-request"
+  | ["net", raw, h] =>
+    match ofHex h with
+    | none => "bad-request"
+    | some frame =>
+      let d := Spec.ipOfFrame (raw == "1") frame
+      s!"ok ipok={Spec.ipv4Ok d} src={Spec.ipSrc d} dst={Spec.ipDst d} proto={Spec.ipProto d} id={Spec.ipId d} ttl={Spec.ipTtl d} off={Spec.ipFragOff d} evil={Spec.ipEvil d} df={Spec.ipDF d} mf={Spec.ipMF d} tcpok={Spec.l4Ok 6 d} udpok={Spec.l4Ok 17 d} udplen={Spec.udpLenOk d} udpcsum={Spec.udpCsumField d} sport={Spec.udpSrcPort d} dport={Spec.udpDstPort d} icmptype={Spec.u8At d 20} icmpid={Spec.u16At d 24} icmpseq={Spec.u16At d 26} icmpok={Spec.icmpEchoOk (Spec.u8At d 20) (Spec.u16At d 24) (Spec.u16At d 26) d} ethok={Spec.ethMatchesIp frame} ethbc={Spec.ethBroadcastMatchesIp frame} len={d.length}"
+  | ["frag", h] =>
+    match (ofHex h).bind Spec.decodeFrag with
+    | some f => s!"ok src={f.src} dst={f.dst} proto={f.proto} id={f.id} ttl={f.ttl} evil={f.evil} df={f.df} mf={f.mf} off={f.offset} data={hexOrDash f.data}"
+    | none => "bad"
+  | ["reasm", hs] =>
+    match ((hs.splitOn ",").filter (fun x => x != "")).mapM ofHex with
+    | some pkts => match Spec.reassemblePkts pkts with
+      | some b => s!"ok {hexOrDash b}"
+      | none => "none"
+    | none => "bad-request"
   | _ => "bad-request"
 
 def dispatch (line : String) : String :=
